@@ -144,7 +144,7 @@ def one(ctx, desc):
 
 
 def gen_fn(rng):
-    d = gen.gen_system(rng, phases=1.0, max_nodes=12, p_neg_src_rs=0.0, p_mux=0.4)
+    d = gen.gen_system(rng, phases=1.0, max_nodes=12, p_neg_src_rs=0.0, p_mux=0.4, p_micro=0.2)
     for c in d["comps"]:
         if isinstance(c.get("pconf"), list) and rng.random() < 0.1:
             c["pconf"] = []
